@@ -12,6 +12,7 @@ package datastore
 
 import (
 	"context"
+	"sync"
 
 	"github.com/sourcenetwork/corekv"
 
@@ -79,6 +80,10 @@ type BasicTxn struct {
 	txn corekv.Txn
 	id  uint64
 
+	// fnsMu guards the callback lists: calls that share one transaction register
+	// callbacks concurrently.
+	fnsMu sync.Mutex
+
 	successFns []func()
 	errorFns   []func()
 	discardFns []func()
@@ -110,6 +115,7 @@ func (t *BasicTxn) Commit(ctx context.Context) error {
 	var asyncFns []func()
 
 	err := t.txn.Commit()
+	t.fnsMu.Lock()
 	if err != nil {
 		fns = t.errorFns
 		asyncFns = t.errorAsyncFns
@@ -117,6 +123,7 @@ func (t *BasicTxn) Commit(ctx context.Context) error {
 		fns = t.successFns
 		asyncFns = t.successAsyncFns
 	}
+	t.fnsMu.Unlock()
 
 	for _, fn := range asyncFns {
 		go fn()
@@ -130,35 +137,52 @@ func (t *BasicTxn) Commit(ctx context.Context) error {
 func (t *BasicTxn) Discard(ctx context.Context) {
 	t.txn.Discard()
 
-	for _, fn := range t.discardAsyncFns {
+	t.fnsMu.Lock()
+	asyncFns := t.discardAsyncFns
+	fns := t.discardFns
+	t.fnsMu.Unlock()
+
+	for _, fn := range asyncFns {
 		go fn()
 	}
-	for _, fn := range t.discardFns {
+	for _, fn := range fns {
 		fn()
 	}
 }
 
 func (t *BasicTxn) OnSuccess(fn func()) {
+	t.fnsMu.Lock()
+	defer t.fnsMu.Unlock()
 	t.successFns = append(t.successFns, fn)
 }
 
 func (t *BasicTxn) OnError(fn func()) {
+	t.fnsMu.Lock()
+	defer t.fnsMu.Unlock()
 	t.errorFns = append(t.errorFns, fn)
 }
 
 func (t *BasicTxn) OnDiscard(fn func()) {
+	t.fnsMu.Lock()
+	defer t.fnsMu.Unlock()
 	t.discardFns = append(t.discardFns, fn)
 }
 
 func (t *BasicTxn) OnSuccessAsync(fn func()) {
+	t.fnsMu.Lock()
+	defer t.fnsMu.Unlock()
 	t.successAsyncFns = append(t.successAsyncFns, fn)
 }
 
 func (t *BasicTxn) OnErrorAsync(fn func()) {
+	t.fnsMu.Lock()
+	defer t.fnsMu.Unlock()
 	t.errorAsyncFns = append(t.errorAsyncFns, fn)
 }
 
 func (t *BasicTxn) OnDiscardAsync(fn func()) {
+	t.fnsMu.Lock()
+	defer t.fnsMu.Unlock()
 	t.discardAsyncFns = append(t.discardAsyncFns, fn)
 }
 
